@@ -26,7 +26,7 @@ import (
 // one computed from scratch from the final report and the finally assigned pods, whatever the
 // interleaving of the two event streams was.
 func TestVerifC08Conc(t *testing.T) {
-	kit.Run(t, kit.Config{Property: "C08", Unit: "conc", Quick: 1000, Thorough: 30000,
+	kit.Run(t, kit.Config{Property: "C08", Unit: "conc", Quick: 800, Thorough: 20000,
 		Rule: "per case: a sequential prefix of 10-30 events, then concurrently a pod-event goroutine (60-140 events as in unit estimate), a NodeMetric-event goroutine (30-70 add/update/delete events over the same 2-3 nodes) and two reader goroutines (250 Filter / estimate reads each) on one cache, -race; at quiescence the differential and the statement oracle for every node and mode; distinct = (per-node final report kind, #assigned, #estimated, #reflected, nodes, pods); non-trivial = at quiescence some node has a complete report and at least one assigned pod",
 	}, func(c *kit.Case) {
 		r := c.R
@@ -158,7 +158,7 @@ func TestVerifC08Conc(t *testing.T) {
 // sequentially afterwards so that a lost pod becomes observable.
 func TestVerifC08Cleanup(t *testing.T) {
 	const rounds = 40
-	kit.Run(t, kit.Config{Property: "C08", Unit: "cleanup", Quick: 800, Thorough: 24000,
+	kit.Run(t, kit.Config{Property: "C08", Unit: "cleanup", Quick: 600, Thorough: 15000,
 		Rule: "per case 40 rounds, each on a fresh cache: (0) last pod removed (informer delete / terminate / Unreserve) vs NodeMetric add; (1) NodeMetric delete vs pod add (informer add of a bound pod / Reserve); (2) informer delete of the last pod vs Reserve of another pod; (3) all three goroutines; both estimate oracles at quiescence and again after a sequential NodeMetric add; every round is one evaluation; distinct = (variant, removal kind, add kind, report survived, #assigned); non-trivial = every case (each round ends with a complete report and the oracle run)",
 	}, func(c *kit.Case) {
 		r := c.R
